@@ -432,7 +432,9 @@ static void
 setup_buffer(ByteBuffer *b)
 {
     assert(sizeof(RPFrame) < b->size);
-    b->used = sizeof(RPFrame);
+    /* A block that cannot hold more than the RPFrame structure has no room for
+     * frame data: mark it full instead of marking more than it holds. */
+    b->used = (sizeof(RPFrame) < b->size) ? sizeof(RPFrame) : b->size;
 }
 
 static inline uint32_t
@@ -870,7 +872,9 @@ regp_recv(RegP *p, RPMaybeFrame *mf)
     case ENOMEM: {
         /* Send ERXOVERFLOW reply, based on the start of the received frame,
          * which sits behind the RPFrame structure in the block. */
-        const size_t have = cs.buffer.used - sizeof(RPFrame);
+        const size_t have = (cs.buffer.used > sizeof(RPFrame))
+            ? (cs.buffer.used - sizeof(RPFrame))
+            : 0u;
         byte_buffer_reset(&fb);
         byte_buffer_add(&fb, cs.buffer.data + sizeof(RPFrame),
                         have < RP_HEADER_SIZE ? have : RP_HEADER_SIZE);
